@@ -146,5 +146,10 @@ def run(db, chk):
                        sample=(n_sc % 211 == 2), extra={"unit": uname})
     chk.absorb(db, "C09", {"C09-P2"}, "C04-S3", "base levels and mask in force are exactly those last set: the "
                "setters replace their state as a whole (shared with C09-P2)",
-               pred=lambda o: "set_base_levels" in o["instance"] or "set_mask" in o["instance"], min_instances=3)
+               pred=lambda o: "set_base_levels" in o["instance"] or "set_mask" in o["instance"]
+               or "single_flow_router::apply" in o["instance"], min_instances=3)
+    chk.absorb(db, "C10", {"C10-X1", "C10-X2"}, "C04-S4", "the parallel body of the router shares no scratch "
+               "variable between workers and registers donors after the region, in node order (shared with "
+               "C10-X1 / X2): otherwise receivers depend on the interleaving",
+               pred=lambda o: "apply_par" in o["instance"] or "donors rebuilt" in o["instance"], min_instances=3)
     chk.count_scenarios(n_sc, True)
